@@ -238,15 +238,28 @@ pub struct Encoded {
 }
 
 pub fn encode(ds: &[GElem], ts: Ts, mode: LenMode) -> Encoded {
+    encode_odd(ds, ts, mode, &OddOpts::default())
+}
+
+/// Deliberately non-conformant encoding (C07): the elements whose path is listed keep an odd
+/// declared length (no padding); with `trailing_pad` one extra pad byte follows the declared
+/// bytes (what a reader using the "next even" strategy expects).
+#[derive(Default, Clone, Debug)]
+pub struct OddOpts {
+    pub paths: std::collections::HashSet<String>,
+    pub trailing_pad: bool,
+}
+
+pub fn encode_odd(ds: &[GElem], ts: Ts, mode: LenMode, odd: &OddOpts) -> Encoded {
     let mut e = Encoded {
         bytes: Vec::new(),
         pos: Vec::new(),
     };
-    enc_ds(ds, ts, mode, &mut e, "");
+    enc_ds(ds, ts, mode, &mut e, "", odd);
     e
 }
 
-fn enc_ds(ds: &[GElem], ts: Ts, mode: LenMode, e: &mut Encoded, path: &str) {
+fn enc_ds(ds: &[GElem], ts: Ts, mode: LenMode, e: &mut Encoded, path: &str, odd: &OddOpts) {
     let big = ts.big();
     for el in ds {
         let p = format!("{}{:04X}{:04X}", path, el.tag.0, el.tag.1);
@@ -272,7 +285,7 @@ fn enc_ds(ds: &[GElem], ts: Ts, mode: LenMode, e: &mut Encoded, path: &str) {
                         bytes: Vec::new(),
                         pos: Vec::new(),
                     };
-                    enc_ds(&it.elems, ts, mode, &mut body, &format!("{}[{}].", p, i));
+                    enc_ds(&it.elems, ts, mode, &mut body, &format!("{}[{}].", p, i), odd);
                     let base = inner.bytes.len() + 8;
                     if it_explicit {
                         item_tag(&mut inner.bytes, 0xE000, body.bytes.len() as u32, big);
@@ -345,6 +358,25 @@ fn enc_ds(ds: &[GElem], ts: Ts, mode: LenMode, e: &mut Encoded, path: &str) {
             _ => {
                 let raw = elem_value_bytes(el, big);
                 let unpadded = raw.len();
+                if odd.paths.contains(&p) && unpadded % 2 == 1 {
+                    let header_at = e.bytes.len();
+                    header(&mut e.bytes, el.tag, el.vr, unpadded as u32, ts);
+                    let value_at = e.bytes.len();
+                    e.pos.push(Pos {
+                        path: p,
+                        tag: el.tag,
+                        vr: el.vr,
+                        header_at,
+                        value_at,
+                        len: unpadded as u32,
+                        unpadded: Some(unpadded),
+                    });
+                    e.bytes.extend_from_slice(&raw);
+                    if odd.trailing_pad {
+                        e.bytes.push(pad_byte(el.vr));
+                    }
+                    continue;
+                }
                 let v = padded(raw, el.vr);
                 let header_at = e.bytes.len();
                 header(&mut e.bytes, el.tag, el.vr, v.len() as u32, ts);
